@@ -48,11 +48,11 @@ func (it *Interp) coinFields(v Value) (string, Value) {
 	if a.Nil {
 		panic(&GoPanic{Msg: "nil coin amount"})
 	}
-	return d, a.V
+	return d, it.intVal(a)
 }
 
 func (it *Interp) mkCoin(t types.Type, d string, a Value) *StructV {
-	return &StructV{T: t, Fields: []Value{d, IntV{V: a}}}
+	return &StructV{T: t, Fields: []Value{d, nIntV(a)}}
 }
 
 // toCoins converts a Coins value of either representation to the vector theory.
@@ -263,7 +263,7 @@ func registerCoins(P *Program) {
 		if !ok {
 			panic(unsupported("symbolic denom in AmountOf"))
 		}
-		return IntV{V: amtOf(it.toCoins(a[0]), d)}
+		return nIntV(amtOf(it.toCoins(a[0]), d))
 	}
 	P.reg(C+"AmountOf", amountOf)
 	P.reg(C+"AmountOfNoDenomValidation", amountOf)
